@@ -1158,12 +1158,11 @@ def search(ctx, budget_s):
     while time.time() - t0 < budget_s and n < 5000:
         case = gen_case(rng, rng.choice(["newick", "nexus", "nexus", "nexml"]))
         obs = observe(case)
-        v = oracle(case, obs)
         n += 1
-        if v:
+        for v in oracle_all(case, obs):
             ctx.violation(v[0], {"case": case}, key=v[1])
-            if ctx.violations:
-                return
+        if ctx.violations:
+            return
     ctx.notes.append("search: %d further documents through the oracle, no unlisted violation" % n)
 
 
@@ -1178,8 +1177,10 @@ def run(tier, seed, replay=None):
         r = json.load(open(replay))["replay"]
         case = r["case"]
         obs = observe(case)
-        print("oracle:", oracle(case, obs))
-        return 0
+        vs = oracle_all(case, obs)
+        print("document:", case["doc"])
+        print("oracle:", vs if vs else "no violation")
+        return 1 if vs else 0
     ok = core.proof_stage(ctx, ["Props/C13.vo"])
     if not ok:
         core.broken_proof(ctx, search)
@@ -1194,7 +1195,14 @@ def run(tier, seed, replay=None):
         count_case(ctx, case, obs)
         return obs
 
-    core.corr_stage(ctx, model_cases, observe_counted, to_coq, HEADER, "case_ok", oracle=oracle,
+    def oracle_every(case, obs):
+        """report every violation of a case (a listed finding must not hide another one)"""
+        vs = oracle_all(case, obs)
+        for what, key in vs[:-1]:
+            ctx.violation(what, {"case": case}, key=key)
+        return vs[-1] if vs else None
+
+    core.corr_stage(ctx, model_cases, observe_counted, to_coq, HEADER, "case_ok", oracle=oracle_every,
                     show_fn="case_run", nontrivial=nontrivial, search=search, shard=40, sample_fn=sample_fn)
     # NeXML: implementation-side oracle only
     m = 25 if tier == "quick" else 400
@@ -1207,8 +1215,7 @@ def run(tier, seed, replay=None):
             continue
         ctx.evaluations += 1
         ctx.count("schema:nexml")
-        v = oracle(case, obs)
-        if v:
+        for v in oracle_all(case, obs):
             ctx.violation(v[0], {"case": case}, key=v[1])
     return ctx.finish(level="proof",
                       rule="documents assembled from tree statements written by the library's NewickWriter / by a spec printer using the library's token escaping, "
